@@ -80,6 +80,20 @@ def h_density_matrix(env, N, r):
     for k in range(K):
         cr, ci = parts(dm.cs[k])
         env.goal('weight[%d]' % k, b_and(eq(cr * 2 ** N, 1), eq(ci, 0)))
+    # history: change only the signs in place (conjugation by a symbolic Pauli), expand again
+    gg = env.bits('gen', (2 * N,))
+    G = M.pa.Pauli(gg.copy(), 0)
+    res2 = env.run(lambda: state.rotate_by(G).rotate_by(G).density_matrix)
+    env.goal('second_no_exception', b_not(res2.raised))
+    if res2.value is not None:
+        dm2 = res2.value
+        ps2 = oarr([(ps[j] + 2 * ite(ref.ref_anti(gg, gs[j]), 1, 0)) % 4 for j in range(2 * N)])
+        ok2 = tuple(np.shape(dm2.gs)) == (K, 2 * N)
+        env.goal('second_number_of_terms', ok2)
+        if ok2:
+            for a, (gg2, pp2) in enumerate(ref.group(gs[r:N], ps2[r:N])):
+                hits = sum((ite(b_and(arr_eq(dm2.gs[k], gg2), eq(dm2.ps[k], pp2)), 1, 0) for k in range(K)), 0)
+                env.goal('after_sign_change_group_element_%d_listed_exactly_once' % a, eq(hits, 1))
 
 
 def h_shadow(env, N, r, prog, cls='CliffordCircuit', config='plain', nsnap=2):
